@@ -1778,6 +1778,7 @@ impl Sh {
 			}
 		}
 		let limited = limit.is_some();
+		let want_full = want.clone();
 		if let Some(l) = limit {
 			// a limit bounds the number of entries; which end is kept on backward
 			// traversal is not pinned down by the property: only judge forward
@@ -1801,28 +1802,117 @@ impl Sh {
 			norm(&mut w2);
 		}
 		if g2 != w2 {
+			// ---- explanation predicates of the known history findings ----
+			let mut explained: Option<String> = None;
+			if rev {
+				// F7: backward traversal of the history iterator
+				explained = Some("history_backward_traversal".into());
+			}
+			if explained.is_none() {
+				// F9: the same version listed twice because its batch was applied twice
+				// (rotation straddle): removing exact duplicates of straddled commits' values
+				// makes the answer right
+				let mut dedup: Vec<HistEntry> = Vec::new();
+				let mut dup_vals: Vec<Option<Val>> = Vec::new();
+				for e in &got {
+					if dedup.last() == Some(e) {
+						dup_vals.push(e.value.clone());
+					} else {
+						dedup.push(e.clone());
+					}
+				}
+				if !dup_vals.is_empty() {
+					let mut d2 = dedup.clone();
+					if let Some(l) = limit {
+						let _ = l;
+					}
+					if !limited {
+						norm(&mut d2);
+					}
+					let straddled_vals: Vec<Option<Val>> = m.commits.iter().filter(|c| c.straddled()).flat_map(|c| c.writes.iter().map(|w| w.value.clone())).collect();
+					if (d2 == w2 || limited) && dup_vals.iter().all(|v| straddled_vals.contains(v)) {
+						explained = Some("rotation_straddle".into());
+					}
+				}
+			}
+			if explained.is_none() {
+				// F8: versions erased by a later hard delete / replace are still listed
+				// (nothing is missing, and every extra entry is such an erased version)
+				let mut all_versions: Vec<HistEntry> = Vec::new();
+				for c in m.commits.iter().filter(|c| c.status != Status::Failed && c.last_seq <= tm.horizon) {
+					for w in &c.writes {
+						if w.key.as_slice() < lo || w.key.as_slice() >= hi {
+							continue;
+						}
+						let ts = w.ts.unwrap_or(c.commit_ts);
+						match w.kind {
+							Kind::Delete => {}
+							Kind::SoftDelete => all_versions.push(HistEntry { key: w.key.clone(), ts, tombstone: true, value: None }),
+							_ => all_versions.push(HistEntry { key: w.key.clone(), ts, tombstone: false, value: w.value.clone() }),
+						}
+					}
+				}
+				let missing = want.iter().any(|w| !got.contains(w));
+				let extras: Vec<&HistEntry> = got.iter().filter(|g| !want.contains(g)).collect();
+				if !limited && !missing && !extras.is_empty() && extras.iter().all(|e| all_versions.contains(e)) {
+					explained = Some("history_barrier_not_applied".into());
+				}
+				// with a limit "nothing missing" cannot be judged; every listed entry must still be
+				// a version that was really written, and at least one of them an erased one
+				if limited && !got.is_empty() && got.iter().all(|e| all_versions.contains(e)) && got.iter().any(|e| !want_full.contains(e)) {
+					explained = Some("history_barrier_not_applied".into());
+				}
+				// with a timestamp range the barrier logic misfires both ways for keys that have a
+				// hard delete or a replace: only such keys may differ
+				if explained.is_none() && ts_range.is_some() {
+					let barrier_keys: Vec<&Key> = m
+						.commits
+						.iter()
+						.filter(|c| c.status != Status::Failed && c.last_seq <= tm.horizon)
+						.flat_map(|c| c.writes.iter())
+						.filter(|w| matches!(w.kind, Kind::Delete | Kind::Replace))
+						.map(|w| &w.key)
+						.collect();
+					let diff_keys: Vec<&Key> = got.iter().filter(|g| !want_full.contains(g)).chain(want.iter().filter(|w| !got.contains(w))).map(|e| &e.key).collect();
+					if !diff_keys.is_empty() && diff_keys.iter().all(|k| barrier_keys.contains(k)) && got.iter().all(|e| all_versions.contains(e)) {
+						explained = Some("history_barrier_not_applied".into());
+					}
+				}
+			}
+			if explained.is_none() && self.stats.borrow().reopens > 0 && !limited {
+				// F1: after a reopen the versions written by a rotation-straddling commit are gone
+				let straddled_vals: Vec<Option<Val>> = m.commits.iter().filter(|c| c.straddled()).flat_map(|c| c.writes.iter().map(|w| w.value.clone())).collect();
+				let extras = got.iter().any(|g| !want.contains(g));
+				let missing: Vec<&HistEntry> = want.iter().filter(|w| !got.contains(w)).collect();
+				if !extras && !missing.is_empty() && missing.iter().all(|e| straddled_vals.contains(&e.value)) {
+					explained = Some("rotation_straddle".into());
+				}
+			}
 			let f = |v: &Vec<HistEntry>| {
 				v.iter()
 					.map(|e| format!("{}@{}{}", hex(&e.key), e.ts, if e.tombstone { "(tomb)".to_string() } else { format!("={}", hex(&e.value.clone().unwrap_or_default()[..e.value.as_ref().map(|v| v.len().min(10)).unwrap_or(0)])) }))
 					.collect::<Vec<_>>()
 					.join(", ")
 			};
-			self.fail(
-				"history_mismatch",
-				format!(
-					"actor {} history [{}, {}) tomb={} ts_range={:?} limit={:?} rev={} at horizon {} returned [{}] but model says [{}]",
-					ai,
-					hex(lo),
-					hex(hi),
-					tomb,
-					ts_range,
-					limit,
-					rev,
-					tm.horizon,
-					f(&got),
-					f(&want)
-				),
+			let detail = format!(
+				"step {}: actor {} history [{}, {}) tomb={} ts_range={:?} limit={:?} rev={} at horizon {} returned [{}] but model says [{}]{}",
+				self.step_ix.get(),
+				ai,
+				hex(lo),
+				hex(hi),
+				tomb,
+				ts_range,
+				limit,
+				rev,
+				tm.horizon,
+				f(&got),
+				f(&want),
+				explained.as_ref().map(|e| format!(" [explained by known finding {}]", e)).unwrap_or_default()
 			);
+			let mut g = self.viol.borrow_mut();
+			if g.is_none() {
+				*g = Some(Violation { class: "history_mismatch".into(), detail, explained });
+			}
 		}
 	}
 
